@@ -391,13 +391,39 @@ func TestC20_Primitives(t *testing.T) {
 }
 
 // ---- findings --------------------------------------------------------------
+//
+// The two finding tests run on plain goroutines (no bubble): a repair that holds a
+// lock across the progress-file access makes the second goroutine wait on that
+// lock, which a synctest bubble cannot treat as quiescent. Real time is used only
+// as a give-up bound ("the other side is evidently waiting for the parked one"),
+// never as a verdict.
 
 type c20FindingResult struct {
-	harness  string // harness problem (not a verdict)
+	harness  string // the scenario could not be staged (not a verdict)
+	waited   bool   // the second party had to wait for the parked one (accesses are serialised)
 	pending  bool
 	code     byte
 	msg      string
 	accepted bool
+}
+
+func c20Within(d time.Duration, ch <-chan struct{}) bool {
+	select {
+	case <-ch:
+		return true
+	case <-time.After(d):
+		return false
+	}
+}
+
+func (c *c20Cell) waitParked(d time.Duration) []*c20Park {
+	deadline := time.Now().Add(d)
+	for {
+		if ps := c.sched.sorted(); len(ps) > 0 || time.Now().After(deadline) {
+			return ps
+		}
+		time.Sleep(200 * time.Microsecond)
+	}
 }
 
 // F-C20-1: the busy report of a refused request can be written after the request
@@ -407,36 +433,39 @@ func c20RunFinding1() (res c20FindingResult) {
 	c20SetSeams(cell)
 	defer c20SetSeams(nil)
 	defer cell.sched.setFree()
-	if err := c20ResetSuppression(); err != nil {
-		res.harness = err.Error()
-		return
-	}
 	m := newReloadManager(make(chan reloadRequest, 1), make(chan struct{}, 1), nil)
 	if !m.queueReloadRequest(c20Log, reloadRequest{}) { // reload #1 accepted
 		res.harness = "first request refused"
 		return
 	}
-	<-m.reloadReqs // ... carried out ...
-	cell.put(consts.ReloadDone, "OK")
-	retired := make(chan struct{})
-	m.mu.Lock()
-	m.pendingRetirementDone = retired
-	m.mu.Unlock()
-	m.finishReloadSuccess() // old generation still retiring: pending stays set
+	<-m.reloadReqs // the worker is on it
+	m.reloadActive.Store(true)
+	cell.put(consts.ReloadProcessing, "")
 
-	got := make(chan bool, 1)
-	go func() { got <- m.queueReloadRequest(c20Log, reloadRequest{}) }() // request #2: CAS fails ...
-	synctest.Wait()
-	parked := cell.sched.sorted()
-	if len(parked) != 1 || parked[0].label != "restore-write" {
-		res.harness = fmt.Sprintf("expected the refused request parked before its busy write, got %d parked", len(parked))
+	refused := make(chan struct{})
+	go func() { // request #2 on the main loop: the CAS on pending fails ...
+		res.accepted = m.queueReloadRequest(c20Log, reloadRequest{})
+		close(refused)
+	}()
+	parked := cell.waitParked(5 * time.Second) // ... and it is about to write its busy report
+
+	released := make(chan struct{})
+	go func() { // reload #1 fails (say, config load): the worker reports and releases it
+		cell.put(consts.ReloadError, "injected")
+		m.reloadActive.Store(false)
+		clearReloadPending(&m.reloadPending) // pending cleared, muting ended, no busy report to clear
+		close(released)
+	}()
+	// (a repaired release may have to wait for the refusal to finish)
+	res.waited = len(parked) > 0 && !c20Within(2*time.Second, released)
+	for _, p := range parked {
+		cell.sched.release(p, 0) // only now the busy report lands
+	}
+	cell.sched.setFree()
+	if !c20Within(10*time.Second, refused) || !c20Within(10*time.Second, released) {
+		res.harness = "refusal or release did not finish"
 		return
 	}
-	close(retired) // ... the retirement ends: pending cleared, muting ended, no busy report found to clear ...
-	synctest.Wait()
-	cell.sched.release(parked[0], 0) // ... and only now the busy report is written
-	synctest.Wait()
-	res.accepted = <-got
 	res.pending = m.reloadPending.Load()
 	res.code, res.msg, _, _, _ = cell.get()
 	return
@@ -445,10 +474,9 @@ func c20RunFinding1() (res c20FindingResult) {
 func TestC20_Finding_F_C20_1(t *testing.T) {
 	const id = "F-C20-1"
 	c20InstallSeams(t)
-	var res c20FindingResult
-	synctest.Test(t, func(*testing.T) { res = c20RunFinding1() })
+	res := c20RunFinding1()
 	if res.harness != "" {
-		t.Fatalf("harness: %s", res.harness)
+		t.Fatalf("C20 finding 1: scenario did not run to its end: %s", res.harness)
 	}
 	// `dae reload` signals only while the report is done or error (cmd/reload.go)
 	defect := !res.pending && res.code != consts.ReloadDone && res.code != consts.ReloadError
@@ -476,54 +504,58 @@ func c20RunFinding2() (res c20FindingResult) {
 	c20SetSeams(cell)
 	defer c20SetSeams(nil)
 	defer cell.sched.setFree()
-	if err := c20ResetSuppression(); err != nil {
-		res.harness = err.Error()
-		return
-	}
 	m := newReloadManager(make(chan reloadRequest, 1), make(chan struct{}, 1), nil)
 	if !m.queueReloadRequest(c20Log, reloadRequest{}) { // reload #1
 		res.harness = "first request refused"
 		return
 	}
 	<-m.reloadReqs
-	if m.queueReloadRequest(c20Log, reloadRequest{}) { // refused meanwhile: busy report
+	m.reloadActive.Store(true)
+	cell.put(consts.ReloadProcessing, "")
+	if m.queueReloadRequest(c20Log, reloadRequest{}) { // request #2 refused meanwhile: busy report
 		res.harness = "second request accepted"
 		return
 	}
-	// reload #1 fails at config load; the worker releases it (clearReloadPending):
-	// pending cleared, muting ended, busy report read ... parked before writing done
 	released := make(chan struct{})
-	go func() { clearReloadPending(&m.reloadPending); close(released) }()
-	synctest.Wait()
-	parked := cell.sched.sorted()
-	if len(parked) != 1 || parked[0].label != "clear-write" {
-		res.harness = fmt.Sprintf("expected the release parked before its cleanup write, got %d parked", len(parked))
+	go func() { // reload #1 fails; the worker releases it: pending cleared, muting
+		m.reloadActive.Store(false) // ended, busy report read ... about to write done
+		clearReloadPending(&m.reloadPending)
+		close(released)
+	}()
+	parked := cell.waitParked(5 * time.Second)
+
+	started := make(chan struct{})
+	go func() { // reload #3 arrives, is accepted, the worker starts on it
+		res.accepted = m.queueReloadRequest(c20Log, reloadRequest{})
+		if res.accepted {
+			<-m.reloadReqs
+			m.reloadActive.Store(true)
+			_ = setRunSignalProgress(consts.ReloadProcessing, "")
+		}
+		close(started)
+	}()
+	c20Within(2*time.Second, started) // (a repaired admission may have to wait for the release to finish)
+	for _, p := range parked {
+		cell.sched.release(p, 0) // the stale cleanup lands
+	}
+	cell.sched.setFree()
+	if !c20Within(10*time.Second, released) || !c20Within(10*time.Second, started) {
+		res.harness = "release or admission did not finish"
 		return
 	}
-	res.accepted = m.queueReloadRequest(c20Log, reloadRequest{}) // reload #3 arrives and is accepted
-	if res.accepted {
-		<-m.reloadReqs
-		m.reloadActive.Store(true)
-		_ = setRunSignalProgress(consts.ReloadProcessing, "") // the worker starts on it
-	}
-	cell.sched.release(parked[0], 0) // the stale cleanup lands
-	<-released
-	synctest.Wait()
 	res.pending = m.reloadPending.Load()
 	res.code, res.msg, _, _, _ = cell.get()
-	// settle
 	cell.parkClearWrite = false
-	m.finishReloadFailure()
+	m.finishReloadFailure() // settle (ends the muting of #3)
 	return
 }
 
 func TestC20_Finding_F_C20_2(t *testing.T) {
 	const id = "F-C20-2"
 	c20InstallSeams(t)
-	var res c20FindingResult
-	synctest.Test(t, func(*testing.T) { res = c20RunFinding2() })
+	res := c20RunFinding2()
 	if res.harness != "" {
-		t.Fatalf("harness: %s", res.harness)
+		t.Fatalf("C20 finding 2: scenario did not run to its end: %s", res.harness)
 	}
 	defect := res.accepted && res.pending && res.code != consts.ReloadProcessing
 	desc := fmt.Sprintf("reload #3 accepted=%v and in progress (pending=%v); progress report %s %q", res.accepted, res.pending, c20CodeName(res.code), res.msg)
